@@ -58,6 +58,8 @@ pub struct Obj {
     pub cells: Vec<Value>,     // GLWE dumps in (row-major) cell order, or one LWE dump
     pub seeds: Vec<Vec<u8>>,   // stored seeds of a compressed object
     pub ser_same: bool,        // compressed -> bytes -> compressed -> decompress gives the same cells
+    pub refc: Vec<Value>,      // wrapper keys: the cells of the plain GGLWECompressed encryption of (plaintext columns, key, seed)
+    pub drawn: Vec<Vec<u8>>,   // wrapper keys: the seeds the master stream yields in drawing order (public Source API)
 }
 
 macro_rules! rand_backend {
@@ -102,7 +104,7 @@ macro_rules! rand_backend {
                         *x = prng.sym(1);
                     }
                 }
-                let mut o = Obj { mask: vec![], body: vec![], cells: vec![], seeds: vec![], ser_same: true };
+                let mut o = Obj { mask: vec![], body: vec![], cells: vec![], seeds: vec![], ser_same: true, refc: vec![], drawn: vec![] };
                 o.cells.push(json!({"sk": (0..rank as usize).map(|i| sk.verif_data().at(i, 0).to_vec()).collect::<Vec<_>>(),
                                     "pt": {"b": b, "size": pt.data.size(), "d": (0..pt.data.size()).map(|j| pt.data.at(0, j).to_vec()).collect::<Vec<_>>()},
                                     "spt": spt.at(0, 0).to_vec(), "spts": (0..rin).map(|ci| spt.at(ci, 0).to_vec()).collect::<Vec<_>>()}));
@@ -243,6 +245,131 @@ macro_rules! rand_backend {
                                 }
                                 split_glwe(&x, &mut o.mask, &mut o.body);
                                 o.cells.push(dump_glwe_ref(&x));
+                            }
+                        }
+                    }
+                    // compressed key wrappers (C19): each is a GGLWECompressed encryption of specific plaintext columns under a
+                    // specific key; logged: the decompressed cells, the stored seeds, and as reference the cells of the PLAIN
+                    // gglwe_compressed_encrypt_sk run on (columns, key, seed) computed here through public APIs only
+                    "ksk_c" | "atk_c" | "tsk_c" | "tgk_c" => {
+                        let rk = rank as usize;
+                        // reference: plain compressed GGLWE of `cols` columns under `key` with `seed`, decompressed
+                        let plain = |cols: &ScalarZnx<Vec<u8>>, ncols: usize, key: &GLWESecretPrepared<DeviceBuf<BE>, BE>, seed: [u8; 32], xe: &mut Source, refc: &mut Vec<Value>, drawn: &mut Vec<Vec<u8>>| {
+                            let mut sc = ScratchOwned::<BE>::alloc(1 << 20);
+                            let mut gc = GGLWECompressed::alloc(deg, Base2K(b), TorusPrecision(k), Rank(ncols as u32), Rank(rank), Dnum(dnum), Dsize(dsize));
+                            m.gglwe_compressed_encrypt_sk(&mut gc, cols, key, seed, &ni, xe, sc.borrow());
+                            let mut g = GGLWE::alloc(deg, Base2K(b), TorusPrecision(k), Rank(ncols as u32), Rank(rank), Dnum(dnum), Dsize(dsize));
+                            m.decompress_gglwe(&mut g, &gc);
+                            for r in 0..dnum as usize {
+                                for ci in 0..ncols {
+                                    refc.push(dump_glwe_ref(&g.at(r, ci)));
+                                }
+                            }
+                            let mut src = Source::new(seed);
+                            for _ in 0..(dnum as usize * ncols) {
+                                drawn.push(src.new_seed().to_vec());
+                            }
+                        };
+                        let mut xe_ref = Source::new(seed32(0x6000 + xe_id));
+                        // negacyclic product of two secret polynomials (schoolbook, harness side)
+                        let prod = |x: &[i64], y: &[i64]| -> Vec<i64> {
+                            let mut z = vec![0i64; n];
+                            for i in 0..n {
+                                for j in 0..n {
+                                    let t = x[i] * y[j];
+                                    if i + j < n { z[i + j] += t } else { z[i + j - n] -= t }
+                                }
+                            }
+                            z
+                        };
+                        let skd: Vec<Vec<i64>> = (0..rk).map(|i| sk.verif_data().at(i, 0).to_vec()).collect();
+                        if layout == "ksk_c" {
+                            let mut sk_in = GLWESecret::alloc(deg, Rank(rank));
+                            sk_in.fill_ternary_prob(0.5, &mut Source::new(seed32(0x5200 + pt_id)));
+                            o.cells[0]["sk_in"] = json!((0..rk).map(|i| sk_in.verif_data().at(i, 0).to_vec()).collect::<Vec<_>>());
+                            let mut kc = GLWESwitchingKeyCompressed::alloc(deg, Base2K(b), TorusPrecision(k), Rank(rank), Rank(rank), Dnum(dnum), Dsize(dsize));
+                            m.glwe_switching_key_compressed_encrypt_sk(&mut kc, &sk_in, &sk, seed_xa, &ni, &mut source_xe, scratch.borrow());
+                            let mut kd = GLWESwitchingKey::alloc(deg, Base2K(b), TorusPrecision(k), Rank(rank), Rank(rank), Dnum(dnum), Dsize(dsize));
+                            m.decompress_glwe_switching_key(&mut kd, &kc);
+                            for r in 0..dnum as usize {
+                                for i in 0..rk {
+                                    o.cells.push(dump_glwe_ref(&kd.at(r, i)));
+                                }
+                            }
+                            o.seeds = GGLWECompressedSeedMut::seed_mut(&mut kc).iter().map(|s| s.to_vec()).collect();
+                            let mut cols = ScalarZnx::alloc(n, rk);
+                            for i in 0..rk {
+                                cols.at_mut(i, 0).copy_from_slice(sk_in.verif_data().at(i, 0));
+                            }
+                            plain(&cols, rk, &skp, seed_xa, &mut xe_ref, &mut o.refc, &mut o.drawn);
+                        } else if layout == "atk_c" {
+                            let p: i64 = [5i64, -1, 3, 2 * n as i64 - 3][(gu(c, "pid", 0) % 4) as usize];
+                            o.cells[0]["p"] = json!(p);
+                            let mut kc = GLWEAutomorphismKeyCompressed::alloc(deg, Base2K(b), TorusPrecision(k), Rank(rank), Dnum(dnum), Dsize(dsize));
+                            m.glwe_automorphism_key_compressed_encrypt_sk(&mut kc, p, &sk, seed_xa, &ni, &mut source_xe, scratch.borrow());
+                            let mut kd = GLWEAutomorphismKey::alloc(deg, Base2K(b), TorusPrecision(k), Rank(rank), Dnum(dnum), Dsize(dsize));
+                            m.decompress_automorphism_key(&mut kd, &kc);
+                            for r in 0..dnum as usize {
+                                for i in 0..rk {
+                                    o.cells.push(dump_glwe_ref(&kd.at(r, i)));
+                                }
+                            }
+                            o.seeds = GGLWECompressedSeedMut::seed_mut(&mut kc).iter().map(|s| s.to_vec()).collect();
+                            // the key of the cells is pi_{p^-1}(s), which cannot be built through the public API: the reference is taken
+                            // under s itself and only its MASK columns are compared (a mask is a function of the stored seed alone);
+                            // the bodies are judged by the specification on their phases
+                            let mut cols = ScalarZnx::alloc(n, rk);
+                            for i in 0..rk {
+                                cols.at_mut(i, 0).copy_from_slice(&skd[i]);
+                            }
+                            plain(&cols, rk, &skp, seed_xa, &mut xe_ref, &mut o.refc, &mut o.drawn);
+                        } else if layout == "tsk_c" {
+                            let pairs = (rk * (rk + 1)) / 2;
+                            let mut kc = GLWETensorKeyCompressed::alloc(deg, Base2K(b), TorusPrecision(k), Rank(rank), Dnum(dnum), Dsize(dsize));
+                            m.glwe_tensor_key_compressed_encrypt_sk(&mut kc, &sk, seed_xa, &ni, &mut source_xe, scratch.borrow());
+                            let mut kd = GLWETensorKey::alloc(deg, Base2K(b), TorusPrecision(k), Rank(rank), Dnum(dnum), Dsize(dsize));
+                            m.decompress_tensor_key(&mut kd, &kc);
+                            let g = GGLWEToRef::to_ref(&kd);
+                            for r in 0..dnum as usize {
+                                for i in 0..pairs {
+                                    o.cells.push(dump_glwe_ref(&g.at(r, i)));
+                                }
+                            }
+                            o.seeds = GGLWECompressedSeedMut::seed_mut(&mut kc).iter().map(|s| s.to_vec()).collect();
+                            // columns: s_i * s_j for i <= j, row-major over the upper triangle
+                            let mut cols = ScalarZnx::alloc(n, pairs);
+                            let mut idx = 0;
+                            for i in 0..rk {
+                                for j in i..rk {
+                                    cols.at_mut(idx, 0).copy_from_slice(&prod(&skd[i], &skd[j]));
+                                    idx += 1;
+                                }
+                            }
+                            plain(&cols, pairs, &skp, seed_xa, &mut xe_ref, &mut o.refc, &mut o.drawn);
+                        } else {
+                            let mut kc = GGLWEToGGSWKeyCompressed::alloc(deg, Base2K(b), TorusPrecision(k), Rank(rank), Dnum(dnum), Dsize(dsize));
+                            <Module<BE> as poulpy_core::api::GGLWEToGGSWKeyCompressedEncryptSk<BE>>::gglwe_to_ggsw_key_encrypt_sk(m, &mut kc, &sk, seed_xa, &ni, &mut source_xe, scratch.borrow());
+                            let mut kd = GGLWEToGGSWKey::alloc(deg, Base2K(b), TorusPrecision(k), Rank(rank), Dnum(dnum), Dsize(dsize));
+                            // (GGLWEToGGSWKeyDecompress is not implemented for Module: decompress key by key)
+                            for i in 0..rk {
+                                m.decompress_gglwe(kd.at_mut(i), kc.at(i));
+                            }
+                            let mut master = Source::new(seed_xa);
+                            for i in 0..rk {
+                                for r in 0..dnum as usize {
+                                    for j in 0..rk {
+                                        o.cells.push(dump_glwe_ref(&kd.at(i).at(r, j)));
+                                    }
+                                }
+                                for s in kc.at(i).seed().iter() {
+                                    o.seeds.push(s.to_vec());
+                                }
+                                let mut cols = ScalarZnx::alloc(n, rk);
+                                for j in 0..rk {
+                                    cols.at_mut(j, 0).copy_from_slice(&prod(&skd[i], &skd[j]));
+                                }
+                                let branch = master.new_seed();
+                                plain(&cols, rk, &skp, branch, &mut xe_ref, &mut o.refc, &mut o.drawn);
                             }
                         }
                     }
@@ -443,10 +570,11 @@ pub fn run_rand(mods: &mut RMods, c: &Value, out: &mut dyn FnMut(Value)) {
             for be in 0..4 {
                 let rec = match mods.exec(be, c, (2, 2, xa_id, xe_id)) {
                     Ok(o) => {
-                        let refc = if c["layout"] == "ggsw_c" { vec![] } else { reference_cells(mods, be, c, &o.seeds, xe_id, 2, 2) };
+                        let wrapper = !o.refc.is_empty();
+                        let refc = if wrapper { o.refc.clone() } else if c["layout"] == "ggsw_c" { vec![] } else { reference_cells(mods, be, c, &o.seeds, xe_id, 2, 2) };
                         // the seeds the master stream yields, in drawing order (public Source API)
                         let mut master = Source::new(seed32(0x7000 + xa_id));
-                        let drawn: Vec<Vec<u8>> = (0..o.seeds.len()).map(|_| master.new_seed().to_vec()).collect();
+                        let drawn: Vec<Vec<u8>> = if wrapper { o.drawn.clone() } else { (0..o.seeds.len()).map(|_| master.new_seed().to_vec()).collect() };
                         json!({"aux": o.cells[0], "cells": o.cells[1..].to_vec(), "ref": refc, "stored": o.seeds, "drawn": drawn,
                                "master": seed32(0x7000 + xa_id).to_vec(), "ser_same": o.ser_same, "panic": ""})
                     }
